@@ -56,3 +56,20 @@ Proof.
     unfold valid_item, lim64, lim32, half32, bar; cbn; intuition lia.
 Qed.
 
+
+(* the ghost state of the first history: three retained items (two files survive), of which the
+   accepted list has seven (one write is ignored as older) *)
+Lemma retained_example :
+  map i_ts (retained (g_run ex_cfg (g_init 1700000000000) ex_ops)) = [1700000003000; 1700000004000; 1700000004000] /\
+  lenZ (accepted 1700000000000 ex_ops) = 7.
+Proof. vm_compute. split; reflexivity. Qed.
+
+(* a data file holding one complete line followed by a torn one *)
+Lemma file_roundtrip_example :
+  Forall valid_item [mkItem 1700000001000 [50] [97] 1 2 3 4 5 6 7 8] /\ ~ In 10 [49; 55; 48] /\
+  read_items ([120; 10] ++ enc_lines [mkItem 1700000001000 [50] [97] 1 2 3 4 5 6 7 8] ++ [49; 55; 48]) 2 =
+  [mkItem 1700000001000 [50] [97] 1 2 3 4 5 6 7 8].
+Proof.
+  split; [|split; [cbn; lia|vm_compute; reflexivity]].
+  repeat constructor; unfold valid_item, lim64, lim32, half32, bar; cbn; intuition lia.
+Qed.
